@@ -374,3 +374,185 @@ Proof. unfold pack_segments. now rewrite pack_loop_concat. Qed.
 
 Theorem pack_segments_max_rows w segs : Forall (batch_ok w) (pack_segments w segs).
 Proof. unfold pack_segments. apply pack_loop_batches; [reflexivity|constructor|lia]. Qed.
+
+(** * The rules, for the concrete attributes *)
+
+Lemma decide_path_eqb sw w r p : decide sw w r = p -> path_eqb (decide_cond (cond_of sw w r)) p = true.
+Proof. intro H. apply path_eqb_eq. now rewrite <- decide_cond_of. Qed.
+
+Theorem copy_implies_settings_equal sw w r :
+  decide sw w r = PCopy ->
+  sw_disable_copy sw = false /\ w_encryption w = false /\
+  (rg_rows r <= w_max_rows w)%N /\
+  chunk_transparent (rg_kind r) = true /\
+  length (rg_cols r) = w_ncols w /\
+  rg_schema_present r = true /\ (w_schema_set w = true -> rg_schema_equal r = true) /\
+  forall c, In c (rg_cols r) -> column_settings_equal c.
+Proof.
+  intro H. pose proof (all_cond_spec _ rule_copy_all (cond_of sw w r)) as R.
+  unfold rule_copy in R. rewrite (decide_path_eqb _ _ _ _ H) in R. cbn [implb] in R.
+  repeat (apply andb_true_iff in R; destruct R as [R ?]).
+  cbn [cond_of q_disable_copy q_w_encryption q_rows_le_max q_kind q_ncols_eq q_all_cols_copyable
+       q_schema_present q_writer_schema q_schema_equal] in *.
+  repeat match goal with |- _ /\ _ => split end.
+  - now apply negb_true_iff.
+  - now apply negb_true_iff.
+  - now apply N.leb_le.
+  - assumption.
+  - now apply Nat.eqb_eq.
+  - assumption.
+  - intro Hs. match goal with Hi : implb (w_schema_set w) _ = true |- _ => rewrite Hs in Hi; exact Hi end.
+  - intros c Hc. apply column_copyable_sound.
+    match goal with Hf : forallb column_copyable _ = true |- _ => rewrite forallb_forall in Hf; now apply Hf end.
+Qed.
+
+Theorem reencode_implies sw w r :
+  decide sw w r = PReencode ->
+  sw_disable_reencode sw = false /\ chunk_transparent (rg_kind r) = true /\
+  (rg_rows r <= w_max_rows w)%N /\ length (rg_cols r) = w_ncols w /\ rg_cols r <> [] /\
+  (forall c, In c (rg_cols r) -> column_oriented_chunk (c_class c) = true) /\
+  copyable_column_chunks sw w r = false.
+Proof.
+  intro H. pose proof (all_cond_spec _ rule_reencode_all (cond_of sw w r)) as R.
+  unfold rule_reencode in R. rewrite (decide_path_eqb _ _ _ _ H) in R. cbn [implb] in R.
+  repeat (apply andb_true_iff in R; destruct R as [R ?]).
+  rewrite <- copyable_cond_of in *.
+  cbn [cond_of q_disable_reencode q_rows_le_max q_kind q_ncols_eq q_ncols_zero q_all_cols_oriented] in *.
+  repeat match goal with |- _ /\ _ => split end.
+  - now apply negb_true_iff.
+  - assumption.
+  - now apply N.leb_le.
+  - now apply Nat.eqb_eq.
+  - match goal with Hz : negb (length (rg_cols r) =? 0) = true |- _ =>
+      apply negb_true_iff, Nat.eqb_neq in Hz; destruct (rg_cols r); [cbn in Hz; congruence|discriminate] end.
+  - intros c Hc.
+    match goal with Hf : forallb _ (rg_cols r) = true |- _ => rewrite forallb_forall in Hf; now apply Hf end.
+  - now apply negb_true_iff.
+Qed.
+
+Definition rule_wrappers_rows (q : rg_cond) : bool :=
+  implb (wrapper_kind (q_kind q) && q_schema_present q && implb (q_writer_schema q) (q_schema_equal q))
+        (path_eqb (decide_cond q) PRows).
+
+Lemma rule_wrappers_rows_all : all_cond rule_wrappers_rows = true.
+Proof. vm_compute. reflexivity. Qed.
+
+Theorem wrappers_use_row_path sw w r :
+  wrapper_kind (rg_kind r) = true ->
+  (decide sw w r = PRows \/ decide sw w r = PReject) /\
+  (rg_schema_present r = true -> (w_schema_set w = true -> rg_schema_equal r = true) ->
+   decide sw w r = PRows).
+Proof.
+  intro Hk. split.
+  - pose proof (all_cond_spec _ rule_wrappers_all (cond_of sw w r)) as R.
+    unfold rule_wrappers in R. cbn [cond_of q_kind] in R. rewrite Hk in R. cbn [implb] in R.
+    rewrite decide_cond_of. apply orb_true_iff in R. destruct R as [R|R]; apply path_eqb_eq in R; tauto.
+  - intros Hp He.
+    pose proof (all_cond_spec _ rule_wrappers_rows_all (cond_of sw w r)) as R.
+    unfold rule_wrappers_rows in R. cbn [cond_of q_kind q_schema_present q_writer_schema q_schema_equal] in R.
+    rewrite Hk, Hp in R.
+    assert (Hi : implb (w_schema_set w) (rg_schema_equal r) = true).
+    { destruct (w_schema_set w); [now rewrite He|reflexivity]. }
+    rewrite Hi in R. cbn [andb implb] in R. rewrite decide_cond_of. now apply path_eqb_eq.
+Qed.
+
+Theorem segmented_never_chunkwise sw w r :
+  segmented_kind (rg_kind r) = true -> decide sw w r <> PCopy /\ decide sw w r <> PReencode.
+Proof.
+  intro Hk. pose proof (all_cond_spec _ rule_segmented_all (cond_of sw w r)) as R.
+  unfold rule_segmented in R. cbn [cond_of q_kind] in R. rewrite Hk in R. cbn [implb] in R.
+  apply andb_true_iff in R. destruct R as [R1 R2]. rewrite decide_cond_of.
+  split; intro E; rewrite E in *; discriminate.
+Qed.
+
+Theorem chunkwise_only_transparent sw w r :
+  (decide sw w r = PCopy \/ decide sw w r = PReencode -> chunk_transparent (rg_kind r) = true) /\
+  (decide sw w r = PPacked -> segmented_kind (rg_kind r) = true /\ 2 <= length (rg_segs r)).
+Proof.
+  pose proof (all_cond_spec _ rule_types_all (cond_of sw w r)) as R.
+  unfold rule_types in R. apply andb_true_iff in R. destruct R as [R1 R2].
+  rewrite decide_cond_of. cbn [cond_of q_kind q_segs_gt1] in *. split.
+  - intros [E|E]; rewrite E in R1; exact R1.
+  - intro E. rewrite E in R2. cbn in R2. apply andb_true_iff in R2. destruct R2 as [R2 R3].
+    split; [exact R2|]. apply negb_true_iff, Nat.leb_gt in R3. lia.
+Qed.
+
+Theorem disable_switches sw w r :
+  (sw_disable_copy sw = true -> decide sw w r <> PCopy) /\
+  (sw_disable_reencode sw = true -> decide sw w r <> PReencode) /\
+  (sw_disable_copy sw = true -> sw_disable_reencode sw = true ->
+   decide sw w r = PRows \/ decide sw w r = PReject).
+Proof.
+  pose proof (all_cond_spec _ rule_switches_all (cond_of sw w r)) as R.
+  unfold rule_switches in R.
+  apply andb_true_iff in R. destruct R as [R R4].
+  apply andb_true_iff in R. destruct R as [R R3].
+  apply andb_true_iff in R. destruct R as [R1 R2].
+  rewrite decide_cond_of. cbn [cond_of q_disable_copy q_disable_reencode] in *.
+  repeat split.
+  - intros Hs E. rewrite Hs, E in R1. discriminate.
+  - intros Hs E. rewrite Hs, E in R2. discriminate.
+  - intros H1 H2. rewrite H1, H2 in R3. cbn in R3. apply orb_true_iff in R3.
+    destruct R3 as [R3|R3]; apply path_eqb_eq in R3; tauto.
+Qed.
+
+(* with no switch set the cascade takes the first path whose conditions hold *)
+Theorem enabled_paths sw w r :
+  sw_disable_copy sw = false -> sw_disable_reencode sw = false ->
+  rg_schema_present r = true -> (w_schema_set w = true -> rg_schema_equal r = true) ->
+  splittable sw w r = false ->
+  decide sw w r = if copy_conditions w r then PCopy
+                  else if column_oriented_row_group w r then PReencode else PRows.
+Proof.
+  intros H1 H2 H3 H4 H5.
+  pose proof (all_cond_spec _ rule_switches_all (cond_of sw w r)) as R.
+  unfold rule_switches in R. apply andb_true_iff in R. destruct R as [_ R].
+  rewrite <- splittable_cond_of, <- copyable_cond_of, <- (oriented_cond_of sw w r) in R.
+  cbn [cond_of q_disable_copy q_disable_reencode q_schema_present q_writer_schema q_schema_equal] in R.
+  rewrite H1, H2, H3, H5 in R.
+  assert (Hi : implb (w_schema_set w) (rg_schema_equal r) = true).
+  { destruct (w_schema_set w); [now rewrite H4|reflexivity]. }
+  rewrite Hi in R. cbn [negb andb implb] in R.
+  unfold copyable_column_chunks in R. rewrite H1 in R. cbn [negb andb] in R.
+  rewrite decide_cond_of.
+  destruct (copy_conditions w r); [now apply path_eqb_eq|].
+  destruct (column_oriented_row_group w r); now apply path_eqb_eq.
+Qed.
+
+Theorem max_rows_respected sw w r :
+  (w_max_rows w < rg_rows r)%N -> decide sw w r <> PCopy /\ decide sw w r <> PReencode.
+Proof.
+  intro Hlt. pose proof (all_cond_spec _ rule_max_rows_all (cond_of sw w r)) as R.
+  unfold rule_max_rows in R. cbn [cond_of q_rows_le_max] in R.
+  replace (N.leb (rg_rows r) (w_max_rows w)) with false in R by (symmetry; apply N.leb_gt; exact Hlt).
+  cbn [negb implb] in R. apply andb_true_iff in R. destruct R as [R1 R2]. rewrite decide_cond_of.
+  split; intro E; rewrite E in *; discriminate.
+Qed.
+
+(** * The whole plan *)
+
+Lemma copy_count_app a b : copy_count (a ++ b) = copy_count a + copy_count b.
+Proof. induction a as [|[]]; cbn; auto; lia. Qed.
+
+Lemma reencode_count_app a b : reencode_count (a ++ b) = reencode_count a + reencode_count b.
+Proof. induction a as [|[]]; cbn; auto; lia. Qed.
+
+(* disableWriteCopy: no column chunk is copied, at any depth *)
+Theorem disable_copy_no_copy sw w : sw_disable_copy sw = true ->
+  forall fuel r, copy_count (plan fuel sw w r) = 0.
+Proof.
+  intros Hs. induction fuel as [|fuel IH]; intros r; cbn [plan]; [reflexivity|].
+  destruct (decide sw w r) eqn:E; try reflexivity.
+  - induction (pack_segments w _) as [|b bs IHb]; cbn [flat_map]; [reflexivity|].
+    rewrite copy_count_app, IHb. destruct b as [|s [|s' b]]; cbn; auto. rewrite IH. reflexivity.
+  - exfalso. now apply (proj1 (disable_switches sw w r) Hs).
+Qed.
+
+(* both switches: the row path only *)
+Theorem disable_both_rows_only sw w r fuel :
+  sw_disable_copy sw = true -> sw_disable_reencode sw = true ->
+  copy_count (plan fuel sw w r) = 0 /\ reencode_count (plan fuel sw w r) = 0.
+Proof.
+  intros H1 H2. destruct fuel; cbn [plan]; [split; reflexivity|].
+  destruct (proj2 (proj2 (disable_switches sw w r)) H1 H2) as [E|E]; rewrite E; split; reflexivity.
+Qed.
